@@ -19,6 +19,7 @@
 #include <fcntl.h>
 #include <ftw.h>
 #include <inttypes.h>
+#include <locale.h>
 #include <signal.h>
 #include <stdbool.h>
 #include <stdint.h>
@@ -461,6 +462,10 @@ static void run_cmd(char *line)
       for (int i = 0; i < k; i++) free((char *)lst[i]);
       printf("confdirs E%d\n", e);
     }
+  }
+  else if (!strcmp(c, "LOCALE")) { /* LOCALE <name>: numeric locale of the process (found through $LOCPATH) */
+    char *r = setlocale(LC_NUMERIC, tok[1]);
+    printf("locale %s %s\n", r ? "set" : "unavailable", localeconv()->decimal_point);
   }
   else if (!strcmp(c, "LOGOPEN")) log_open = atoi(tok[1]);
   else if (!strcmp(c, "OBJLOG")) log_obj = atoi(tok[1]);
